@@ -481,6 +481,7 @@ def harness_specs(tier):
         specs.append(dict(name='h_c17_lin', src='h_c17_lin.cpp', flavour='fast'))      # (C17's TU) eager wrappers with optional arguments vs their views
     if not os.environ.get('C10_ONLY') or 'h_c08e' in os.environ['C10_ONLY']:
         specs.append(dict(name='h_c08e', src='h_c08e.cpp', flavour='fast'))      # (C08's TU) accumulate / reduce with a wider result dtype: view vs eval
+    specs += [t for t in mx_tus(tier) if not os.environ.get('C10_ONLY') or t['name'] in os.environ['C10_ONLY'].split(',')]
     return specs
 
 
@@ -721,7 +722,160 @@ def optional_arg_cases(tier, rng):
         yield Case(c.req, 'h_c17_lin', oracle=c.oracle, model=False, nontrivial=True, cmp=c.cmp, tags=['optional-argument-forwarding'] + [t for t in c.tags if t.startswith('api=')])
 
 
+# ------------------------------------------------------------------------------------------------------------------
+# mixed operand kinds x mixed element types: bare eval(view) (older resolver eval_t) / array::fn / lazy view
+# (harness/h_c10mx.cpp; the predicates kinds_ok / mx_enabled / mx_enabled_u are the same formulas as there)
+# ------------------------------------------------------------------------------------------------------------------
+MX_KINDS = 'FHDRAVS'
+MX_ETS = ['i32', 'f32', 'f64', 'i8', 'u8']
+MX_NP = {'i32': np.int32, 'f32': np.float32, 'f64': np.float64, 'i8': np.int8, 'u8': np.uint8}
+MX_BFN = ['add', 'multiply', 'subtract', 'less']
+MX_UFN = ['negative', 'fabs', 'positive']
+KF, KH, KD, KR, KA, KV, KS = range(7)
+
+
+def mx_kinds_ok(lk, rk):
+    if lk == KS and rk == KS:
+        return False
+    if lk == KV:
+        return rk in (KV, KD, KS)
+    if rk == KV:
+        return lk in (KD, KS)
+    return True
+
+
+def mx_enabled(lk, rk, lt, rt, f, full):
+    if not mx_kinds_ok(lk, rk):
+        return False
+    q, p = lk * 7 + rk, lt * 5 + rt
+    if f == 0 and p in (2 * 5 + 0, 0 * 5 + 2, 3 * 5 + 4):
+        return True
+    if full:
+        return f == 0 or (p * 3 + q + f * 7) % 11 == 0
+    return (p * 3 + q + f * 7) % 23 == 0
+
+
+def mx_enabled_u(k, t, f, full):
+    return full or f == 0 or (k + t + f) % 2 == 0
+
+
+def mx_ctype(lt, rt=None):
+    """element type of the C++ expression `a op b` (usual arithmetic conversions; integer promotion for one operand):
+    what the ufunc view declares as its element type"""
+    pr = lambda t: 'i32' if t in ('i8', 'u8') else t
+    ts = [pr(lt)] + ([pr(rt)] if rt is not None else [])
+    return 'f64' if 'f64' in ts else 'f32' if 'f32' in ts else 'i32'
+
+
+def mx_num(v):
+    return '%.17g' % float(v)
+
+
+def mx_values(et, n, rng):
+    if et == 'i32':
+        return [rng.choice([-1, 1]) * rng.randint(1, 1000) for _ in range(n)]
+    if et == 'i8':
+        return [rng.choice([-1, 1]) * rng.randint(1, 100) for _ in range(n)]
+    if et == 'u8':
+        return [rng.randint(1, 250) for _ in range(n)]
+    # binary fractions: every sum / difference / product below is exact in float32; no zeros (-0 prints differently)
+    return [rng.choice([-1, 1]) * rng.randint(1, 255) / 4.0 for _ in range(n)]
+
+
+def mx_shape(ks, rng):
+    if any(k in (KF, KR, KA) for k in ks):
+        return [2, 3]
+    if KV in ks:
+        return [rng.randint(1, 6)]
+    if KH in ks:
+        return rng.choice([[2, 3], [3, 4], [1, 5], [4, 1], [6, 2], [2, 2], [1, 1]])
+    r = rng.randint(1, 3)
+    return [rng.randint(1, 3) for _ in range(r)]
+
+
+def mx_tus(tier):
+    full = tier == 'thorough'
+    pre = 'h_c10_mxf' if full else 'h_c10_mx'
+    return [dict(name='%s%d' % (pre, k), src='h_c10mx.cpp', flavour='fast', extra=['-DMX_LK=%d' % k] + (['-DMX_FULL'] if full else []))
+            for k in range(8)]
+
+
+def mx_answer(vt, shape, val, old=True):
+    flat = np.asarray(val).reshape(-1)
+    return 'ok vt=%s shape=%s data=%s et=%s ed=%s ft=%s fd=same' % (vt, fmt(shape), ','.join(mx_num(x) for x in flat),
+                                                                    vt if old else 'n/a', 'same' if old else 'n/a', vt)
+
+
+def mx_model_req(vt, shape, val, old=True):
+    flat = np.asarray(val).reshape(-1)
+    return 'eval_cast vt=%s vshape=%s vdata=%s%s' % (vt, fmt(shape), ','.join(mx_num(x) for x in flat), '' if old else ' old=0')
+
+
+def mixed_cases(tier, rng):
+    """every operand-kind pairing (fixed / hybrid / dynamic / raw array / std::array / std::vector / number, both orders) x
+    element-type pairs: the evaluated array (bare eval(view) with the default, older resolver; array::fn) must have the view's
+    element type and elements.  Shapes are ones both operand containers admit (the shape classes of the known finding
+    C11.old-resolver-operand-container are C11's)."""
+    full = tier == 'thorough'
+    only = os.environ.get('C10_ONLY')
+    pre = 'h_c10_mxf' if full else 'h_c10_mx'
+    reps = 2 if full else 1
+    for lk in range(7):
+        h = '%s%d' % (pre, lk)
+        if only and h not in only.split(','):
+            continue
+        for rk in range(7):
+            for lt in range(5):
+                for rt in range(5):
+                    for f, fn in enumerate(MX_BFN):
+                        if not mx_enabled(lk, rk, lt, rt, f, full):
+                            continue
+                        for _ in range(reps):
+                            shape = mx_shape((lk, rk), rng)
+                            n = prod(shape)
+                            elt, ert = MX_ETS[lt], MX_ETS[rt]
+                            lv = mx_values(elt, 1 if lk == KS else n, rng)
+                            rv = mx_values(ert, 1 if rk == KS else n, rng)
+                            la = np.array(lv, dtype=MX_NP[elt]).reshape([] if lk == KS else shape)
+                            ra = np.array(rv, dtype=MX_NP[ert]).reshape([] if rk == KS else shape)
+                            if fn == 'less':
+                                val, vt = np.less(la, ra).astype(np.int64), 'b'
+                            else:
+                                # exact values (float64 holds every operand and result here exactly); the element type is C++'s
+                                val = getattr(np, fn)(la.astype(np.float64), ra.astype(np.float64))
+                                vt = mx_ctype(elt, ert)
+                            req = 'mixb fn=%s lk=%s lt=%s rk=%s rt=%s shape=%s l=%s r=%s' % (
+                                fn, MX_KINDS[lk], elt, MX_KINDS[rk], ert, fmt(shape), ','.join(mx_num(x) for x in lv), ','.join(mx_num(x) for x in rv))
+                            yield Case(req, h, oracle=mx_answer(vt, shape, val, lk != KV), mreq=mx_model_req(vt, shape, val, lk != KV), nontrivial=True,
+                                       tags=['mixed', 'arity=2', 'bare-eval=' + ('compiles' if lk != KV else 'compile-error'), 'fn=' + fn, 'kinds=%s%s' % (MX_KINDS[lk], MX_KINDS[rk]), 'ets=%s,%s->%s' % (elt, ert, vt),
+                                             'vt-differs-from=' + ('both' if vt not in (elt, ert) else 'rhs' if vt != ert else 'lhs' if vt != elt else 'none')])
+    h = pre + '7'
+    if only and h not in only.split(','):
+        return
+    for k in range(7):
+        for t in range(5):
+            for f, fn in enumerate(MX_UFN):
+                if not mx_enabled_u(k, t, f, full):
+                    continue
+                for _ in range(reps):
+                    shape = mx_shape((k,), rng)
+                    et = MX_ETS[t]
+                    lv = mx_values(et, 1 if k == KS else prod(shape), rng)
+                    la = np.array(lv, dtype=MX_NP[et]).astype(np.float64).reshape([] if k == KS else shape)
+                    val = {'negative': np.negative, 'fabs': np.fabs, 'positive': np.positive}[fn](la)
+                    vt = MX_UTYPE[fn](et)
+                    req = 'mixu fn=%s lk=%s lt=%s shape=%s l=%s' % (fn, MX_KINDS[k], et, fmt([] if k == KS else shape), ','.join(mx_num(x) for x in lv))
+                    yield Case(req, h, oracle=mx_answer(vt, [] if k == KS else shape, val), mreq=mx_model_req(vt, [] if k == KS else shape, val),
+                               nontrivial=True, tags=['mixed', 'arity=1', 'fn=' + fn, 'kinds=' + MX_KINDS[k], 'ets=%s->%s' % (et, vt)])
+
+
+# element type of the unary views (C++: -x and +x promote small integers; std::fabs of an integer is a double)
+MX_UTYPE = {'negative': lambda t: mx_ctype(t), 'positive': lambda t: mx_ctype(t),
+            'fabs': lambda t: t if t in ('f32', 'f64') else 'f64'}
+
+
 def gen(tier, rng):
+    yield from mixed_cases(tier, rng)
     yield from nothing_cases(tier)
     yield from intonum_cases(tier, rng)
     yield from dtype_eval_cases(tier, rng)
@@ -772,11 +926,16 @@ RULE = ('per harness TU every operation sequence its op masks admit (depth 1: al
         'random operand shapes (rank 1..3, extents 1..4) and arguments in the accepted domain, each evaluated with every lazy/eager split '
         '(bit i of mat = step i through array::fn); per composition: view read element-wise vs eval (row-major, column-major, old resolver), '
         'caller-supplied outputs of the right shape (both layouts) and of a wrong shape; fixed/bounded/dynamic operand storage; maybe-typed views. '
-        'non-trivial = depth >= 2, a tree, a caller-supplied output, a maybe-typed view, or a non-dynamic storage kind')
+        'non-trivial = depth >= 2, a tree, a caller-supplied output, a maybe-typed view, or a non-dynamic storage kind. '
+        'Mixed scope (op mixb / mixu): every ordered pairing of operand kinds fixed_ndarray / hybrid_ndarray / dynamic ndarray / raw array / nested std::array / '
+        'std::vector / number (std::vector only with rank-1-capable partners; 40 pairings) x element-type pairs from {i32,f32,f64,i8,u8}^2 (quick: (f64,i32), (i32,f64), (i8,u8) for add on '
+        'every pairing + a 1/23 sample of all (pair, function in add/multiply/subtract/less) combinations; thorough: all 25 pairs for add + a 1/11 sample) and unary '
+        'negative / fabs / positive on every kind x element type: element type and every element of bare eval(view) (older resolver eval_t) and of array::fn vs the lazy view vs NumPy')
 EXHAUSTIVE = {'quick': False, 'thorough': False}
 ANCHORS = {'NmVerif.Eval.evalInto': 'array::evaluator_t<view,none>::operator()(output&) (eval.hpp:141-170), hook event 3 on the silent return',
            'NmVerif.Eval.evalFresh': 'array::evaluator_t<view,none>::operator()() + detail::apply_resize (eval.hpp:179-192), resolvers eval_result_t<ROW_MAJOR|COLUMN_MAJOR>',
            'NmVerif.Driver.C10 eval_maybe (Option.map evalFresh)': 'array::detail::eval maybe lifting (eval.hpp:218-277)',
+           'NmVerif.Eval.evalFreshCast / evalIntoCast (Eval/Cast.lean), driver op eval_cast': 'the copy loop of evaluator_t when the result element type differs from the view\'s (implicit conversion); result element type = get_element_type_t<view> in every branch of meta::resolve_unary_array_type / resolve_binary_array_type (eval.hpp:395-672, resolver eval_t :888-948) and of eval_result_t; harness/h_c10mx.cpp',
            'Arr (shape + get) as view denotation': 'nmtools::shape(view) / apply_at(view, ndindex(shape)[i]) read by the harness for every composition'}
 MANIFEST = dict(
     text='Proof: Lean theorems about the evaluator model over an ARBITRARY view denotation (any shape, any element function): evaluating into a '
